@@ -188,22 +188,27 @@ UNIT = dict(
          must_fire={'method:add_retired_node': 1, 'method:scan': 1, 'method:set_deleter': 1, 'self_call:reset': 1, 'A_FADD': 1, 'subst:tls_fn': 2}),
   ],
   runs=[
-    dict(id='hp_scan', entry='h_scan', tiers=['quick'], defs=dict(XV_E=2, XV_K=2, XV_L=2, XV_LA=1), unwindset=unw(2, 2, 2, 1, 'hp'), cls='shape-complete', timeout=900,
-         note='SEQ: <=2 entries x 2 slots (every state/word), 0..2 retired + 0..1 abandoned nodes; real scan with real gather/reclaim_nodes/adopt'),
-    dict(id='hp_scan_int', entry='h_scan_int', mode='INT', tiers=['quick'], defs=dict(XV_E=2, XV_K=2, XV_L=2, XV_LA=1), unwindset=unw(2, 2, 2, 1, 'hp'), cls='shape-complete', timeout=900,
+    # reclaim_nodes (real text) against an arbitrary sorted vector: the contract used as a stub in the *_scan / *_dtor runs below
+    dict(id='hp_reclaim', entry='h_reclaim', defs=dict(XV_E=3, XV_K=3, XV_L=1, XV_LA=3), unwindset=['hp_reclaim_nodes.0:5'], cls='shape-complete', timeout=900,
+         note='vector of 0..9 arbitrary sorted words, list of 0..3 nodes, 0..1 nodes already kept'),
+    dict(id='he_reclaim', entry='h_reclaim', defs=dict(XV_HE=1, XV_E=3, XV_K=3, XV_L=1, XV_LA=3), unwindset=['he_reclaim_nodes.0:5'], cls='shape-complete', timeout=900),
+    dict(id='hp_reclaim_5', entry='h_reclaim', tiers=['thorough'], defs=dict(XV_E=3, XV_K=3, XV_L=2, XV_LA=5), unwindset=['hp_reclaim_nodes.0:7'], cls='shape-complete', timeout=3000),
+    dict(id='he_reclaim_5', entry='h_reclaim', tiers=['thorough'], defs=dict(XV_HE=1, XV_E=3, XV_K=3, XV_L=2, XV_LA=5), unwindset=['he_reclaim_nodes.0:7'], cls='shape-complete', timeout=3000),
+    # scan / ~thread_data: real text of scan, for_each loop, iterator, is_active, gather, try_get_*, adopt/abandon, release_entry, abandon; reclaim_nodes by contract
+    dict(id='hp_scan', entry='h_scan', defs=dict(XV_STUB_RECLAIM=1, XV_E=3, XV_K=3, XV_L=3, XV_LA=2), unwindset=unw(3, 3, 3, 2, 'hp'), cls='shape-complete', timeout=900,
+         note='SEQ: <=3 entries x 3 slots (every state / slot word), 0..3 retired + 0..2 abandoned nodes'),
+    dict(id='hp_scan_int', entry='h_scan_int', mode='INT', defs=dict(XV_STUB_RECLAIM=1, XV_E=3, XV_K=3, XV_L=3, XV_LA=2), unwindset=unw(3, 3, 3, 2, 'hp'), cls='shape-complete', timeout=900,
          note='INT: other threads rewrite any slot word and any entry state between any two atomic accesses of the scan'),
-    dict(id='hp_dtor', entry='h_dtor', tiers=['quick'], defs=dict(XV_E=2, XV_K=2, XV_L=2, XV_LA=1), unwindset=unw(2, 2, 2, 1, 'hp'), cls='shape-complete', timeout=900),
-    dict(id='hp_trigger', entry='h_trigger', cls='unbounded', note='all 2^60 counter values / 2^32 active-slot counts; A, B as compiled (defaults 2, 100)'),
-    dict(id='he_scan', entry='h_scan', tiers=['quick'], defs=dict(XV_HE=1, XV_E=2, XV_K=2, XV_L=2, XV_LA=1), unwindset=unw(2, 2, 2, 1, 'he'), cls='shape-complete', timeout=900),
-    dict(id='he_scan_int', entry='h_scan_int', mode='INT', tiers=['quick'], defs=dict(XV_HE=1, XV_E=2, XV_K=2, XV_L=2, XV_LA=1), unwindset=unw(2, 2, 2, 1, 'he'), cls='shape-complete', timeout=900),
-    dict(id='he_dtor', entry='h_dtor', tiers=['quick'], defs=dict(XV_HE=1, XV_E=2, XV_K=2, XV_L=2, XV_LA=1), unwindset=unw(2, 2, 2, 1, 'he'), cls='shape-complete', timeout=900),
+    dict(id='hp_dtor', entry='h_dtor', defs=dict(XV_STUB_RECLAIM=1, XV_E=3, XV_K=3, XV_L=3, XV_LA=2), unwindset=unw(3, 3, 3, 2, 'hp'), cls='shape-complete', timeout=900),
+    dict(id='hp_trigger', entry='h_trigger', cls='unbounded', note='all counter values < 2^60 / active-slot counts < 2^32; A, B as compiled (defaults 2, 100)'),
+    dict(id='he_scan', entry='h_scan', defs=dict(XV_HE=1, XV_STUB_RECLAIM=1, XV_E=3, XV_K=3, XV_L=3, XV_LA=2), unwindset=unw(3, 3, 3, 2, 'he'), cls='shape-complete', timeout=900),
+    dict(id='he_scan_int', entry='h_scan_int', mode='INT', defs=dict(XV_HE=1, XV_STUB_RECLAIM=1, XV_E=3, XV_K=3, XV_L=3, XV_LA=2), unwindset=unw(3, 3, 3, 2, 'he'), cls='shape-complete', timeout=900),
+    dict(id='he_dtor', entry='h_dtor', defs=dict(XV_HE=1, XV_STUB_RECLAIM=1, XV_E=3, XV_K=3, XV_L=3, XV_LA=2), unwindset=unw(3, 3, 3, 2, 'he'), cls='shape-complete', timeout=900),
     dict(id='he_trigger', entry='h_trigger', defs=dict(XV_HE=1), cls='unbounded'),
-    dict(id='hp_scan_3', entry='h_scan', tiers=['thorough'], defs=dict(XV_E=3, XV_K=3, XV_L=3, XV_LA=2), unwindset=unw(3, 3, 3, 2, 'hp'), cls='shape-complete', timeout=3000),
-    dict(id='hp_scan_int_3', entry='h_scan_int', mode='INT', tiers=['thorough'], defs=dict(XV_E=3, XV_K=3, XV_L=3, XV_LA=2), unwindset=unw(3, 3, 3, 2, 'hp'), cls='shape-complete', timeout=3000),
-    dict(id='hp_dtor_3', entry='h_dtor', tiers=['thorough'], defs=dict(XV_E=3, XV_K=3, XV_L=3, XV_LA=2), unwindset=unw(3, 3, 3, 2, 'hp'), cls='shape-complete', timeout=3000),
-    dict(id='he_scan_3', entry='h_scan', tiers=['thorough'], defs=dict(XV_HE=1, XV_E=3, XV_K=3, XV_L=3, XV_LA=2), unwindset=unw(3, 3, 3, 2, 'he'), cls='shape-complete', timeout=3000),
-    dict(id='he_scan_int_3', entry='h_scan_int', mode='INT', tiers=['thorough'], defs=dict(XV_HE=1, XV_E=3, XV_K=3, XV_L=3, XV_LA=2), unwindset=unw(3, 3, 3, 2, 'he'), cls='shape-complete', timeout=3000),
-    dict(id='he_dtor_3', entry='h_dtor', tiers=['thorough'], defs=dict(XV_HE=1, XV_E=3, XV_K=3, XV_L=3, XV_LA=2), unwindset=unw(3, 3, 3, 2, 'he'), cls='shape-complete', timeout=3000),
+    # everything real in one piece (no stub for reclaim_nodes): cross-check of the composition, small shape
+    dict(id='hp_scan_whole', entry='h_scan', tiers=['thorough'], defs=dict(XV_E=2, XV_K=2, XV_L=2, XV_LA=1), unwindset=unw(2, 2, 2, 1, 'hp'), cls='shape-complete', timeout=3000),
+    dict(id='hp_dtor_whole', entry='h_dtor', tiers=['thorough'], defs=dict(XV_E=2, XV_K=2, XV_L=2, XV_LA=1), unwindset=unw(2, 2, 2, 1, 'hp'), cls='shape-complete', timeout=3000),
+    dict(id='he_scan_whole', entry='h_scan', tiers=['thorough'], defs=dict(XV_HE=1, XV_E=2, XV_K=2, XV_L=2, XV_LA=1), unwindset=unw(2, 2, 2, 1, 'he'), cls='shape-complete', timeout=3000),
   ],
   obligations={},
   canaries=[],
